@@ -111,6 +111,83 @@ def _impl_body(prog, trait, adt_suffix, name, rhs=None):
 
 
 # ---------------------------------------------------------------------- U1 field-wise dimension vectors
+def _inplace_updates(b, dim_adt):
+    """{field: (op, left, right)} of a body that copies one parameter into a local and updates its fields one after the other on a
+    single path (asserts aside), returning that local; operands are given as `_1.f` / `_2.f`; a field never updated maps to
+    ('copy', '_k.f', None). None when the body has another shape"""
+    env = {}      # (local, field) -> symbolic text
+    whole = {}    # local -> parameter it is a copy of
+    tmp = {}      # local -> (op, left, right)
+    cur, seen = 0, set()
+
+    def val(op_):
+        pl = mir.op_place(op_)
+        if pl is None:
+            return None
+        if not pl["p"]:
+            if pl["l"] in tmp:
+                return tmp[pl["l"]]
+            return env.get((pl["l"], None))
+        if len(pl["p"]) == 1 and isinstance(pl["p"][0], dict) and "n" in pl["p"][0]:
+            fld = pl["p"][0]["n"]
+            if 0 < pl["l"] <= b.arg_count:
+                return "_%d.%s" % (pl["l"], fld)
+            if (pl["l"], fld) in env:
+                return env[(pl["l"], fld)]
+            if pl["l"] in whole:
+                return "_%d.%s" % (whole[pl["l"]], fld)
+            if pl["l"] in tmp and fld == "0":
+                return tmp[pl["l"]]
+        return None
+
+    while cur is not None and cur not in seen:
+        seen.add(cur)
+        blk = b.blocks[cur]
+        for st in blk["stmts"]:
+            if st["k"] != "assign":
+                continue
+            lhs, rv = st["lhs"], st["rv"]
+            if rv["k"] == "use":
+                src = mir.op_place(rv["op"])
+                if not lhs["p"] and src is not None and not src["p"] and 0 < src["l"] <= b.arg_count and b.local_ty(lhs["l"]).endswith("UnitDimensions"):
+                    whole[lhs["l"]] = src["l"]
+                    continue
+                if not lhs["p"] and src is not None and not src["p"] and src["l"] in whole:
+                    whole[lhs["l"]] = whole[src["l"]]
+                    for (l, fld), v in list(env.items()):
+                        if l == src["l"]:
+                            env[(lhs["l"], fld)] = v
+                    continue
+                v = val(rv["op"])
+                if lhs["p"] and len(lhs["p"]) == 1 and isinstance(lhs["p"][0], dict) and "n" in lhs["p"][0]:
+                    env[(lhs["l"], lhs["p"][0]["n"])] = v
+                elif not lhs["p"]:
+                    env[(lhs["l"], None)] = v
+            elif rv["k"] == "binop" and not lhs["p"]:
+                opn = rv["op"].replace("WithOverflow", "").replace("Unchecked", "")
+                tmp[lhs["l"]] = (opn, val(rv["a"]), val(rv["b"]))
+        t = blk["term"]
+        if t["k"] == "return":
+            break
+        succ = [x for x in b.succ(cur) if not b.blocks[x].get("cleanup")]
+        if t["k"] == "assert":
+            succ = [t["t"]]
+        if len(succ) != 1:
+            return None
+        cur = succ[0]
+    res = None
+    for l, p in whole.items():
+        if l == 0:
+            res = 0
+    if res is None:
+        return None
+    out = {}
+    for (l, fld), v in env.items():
+        if l == 0 and fld is not None:
+            out[fld] = v if isinstance(v, tuple) else ("copy", v, None)
+    return out
+
+
 def check_dimension_vectors(ctx, rep):
     prog = ctx.prog
     n = 0
@@ -139,7 +216,21 @@ def check_dimension_vectors(ctx, rep):
                         if src is not None and not src["p"] and src["l"] == l and len(cands) == 1:
                             agg = (bi, rv)
         if agg is None:
-            rep.gap("UnitDimensions::%s result" % meth, b.where(), "result aggregate not found")
+            # the in-place spelling: `let mut r = self; r.kg += other.kg; ...; r` - evaluate the straight-line updates symbolically
+            upd = _inplace_updates(b, dim_adt)
+            if upd is None:
+                rep.gap("UnitDimensions::%s result" % meth, b.where(), "result aggregate not found")
+                continue
+            for f in fields:
+                n += 1
+                key = "dimension-%s:%s" % (meth, f)
+                got = upd.get(f)
+                want = ("_1.%s" % f, "_2.%s" % f)
+                okf = got is not None and got[0] == op and (got[1:] == want or (op == "Add" and got[1:] == want[::-1]))
+                if okf:
+                    rep.ok("R-DIM", key, b.where(), "%s = self.%s %s other.%s (updated in place)" % (f, f, "+" if op == "Add" else "-", f))
+                else:
+                    rep.bad("R-DIM", "R-DIM:" + key, b.where(), "UnitDimensions::%s computes .%s as %s, expected self.%s %s other.%s: products / quotients of units get the wrong dimension" % (meth, f, got, f, "+" if op == "Add" else "-", f))
             continue
         bi, rv = agg
         for f, o in zip(rv["fields"], rv["ops"]):
